@@ -230,7 +230,9 @@ var c17Check = core.Mon(c17, "string-builtins", func(w *core.W, c *StrFnCase) {
 		if c.N > 4096 {
 			// compare through laws to keep the evidence small: exact length, position of s
 			if expect("len("+c.Fn+"(s, t, n))", c.N) {
-				if c.Fn == "lpad" {
+				if n > c.N {
+					expect(c.Fn+"(s, t, n) == left(s, n)", true)
+				} else if c.Fn == "lpad" {
 					expect("endWith(lpad(s, t, n), s)", true)
 				} else {
 					expect("startWith(rpad(s, t, n), s)", true)
@@ -446,6 +448,36 @@ func runC17(w *core.W) {
 			}
 		}
 		run(&StrFnCase{Fn: "mapToArr", T: []string{"name", "k", "missing"}[r.Intn(3)], Maps: maps, S: "x"})
+	}
+	// sizes: long lists and long strings around powers of two
+	for zi, n := range []int{0, 1, 2, 7, 8, 9, 63, 64, 65, 255, 256, 257, 1023, 1024, 1025, 4096, 10000} {
+		if !w.Mine(zi) {
+			continue
+		}
+		list := make([]string, n)
+		for j := range list {
+			list[j] = fmt.Sprint("e", j%10)
+		}
+		if n == 0 {
+			list = []string{}
+		}
+		run(&StrFnCase{Fn: "join", T: ",", List: list, S: "x"})
+		run(&StrFnCase{Fn: "includes", T: fmt.Sprint("e", 9), List: list, S: "x"})
+		run(&StrFnCase{Fn: "includes", T: "absent", List: list, S: "x"})
+		long := strings.Repeat("ab", n)
+		for _, fn := range []string{"len", "lower", "upper", "trim"} {
+			run(&StrFnCase{Fn: fn, S: long})
+		}
+		run(&StrFnCase{Fn: "find", S: long + "z", T: "z"})
+		run(&StrFnCase{Fn: "endWith", S: long + "z", T: "bz"})
+		run(&StrFnCase{Fn: "replace", S: long, T: "ab", U: "c"})
+		run(&StrFnCase{Fn: "left", S: long, N: n})
+		run(&StrFnCase{Fn: "right", S: long, N: n + 1})
+		run(&StrFnCase{Fn: "mid", S: long, N: n / 2, M: n})
+		run(&StrFnCase{Fn: "lpad", S: "s", T: "p", N: n})
+		run(&StrFnCase{Fn: "rpad", S: long, T: "p", N: n})
+		run(&StrFnCase{Fn: "regexp", S: long, T: "^(ab)*$"})
+		w.Count("size_cases")
 	}
 	_ = val.Nil
 }
